@@ -1581,6 +1581,10 @@ void process_definition_block(mmd_engine * e, token * block) {
 			definition_extract(e, &(label));
 			break;
 
+		case BLOCK_EMPTY:
+			// Already processed by an earlier export of the same tree
+			break;
+
 		default:
 			MMD6_EVENT(MMD6_EV_PROCESS_DEFAULT, block->type, 0);
 			fprintf(stderr, "process %d\n", block->type);
